@@ -68,14 +68,42 @@ class FakeS3:
         self.pages = []       # continuation tokens to hand out on successive listing calls
         self.put_faults = 0   # this many PUT attempts are answered 503 after the body was read (the adapter retries)
         self.canon = []       # per prepared request: (canonical request, string to sign) as the module hashed/signed them
+        self.prepared = {}    # id(request object _prepare_request returned) -> {'canon', 'stamp_index', 'request'}
+        self.redirects = []   # answers 3xx + Location for the next requests the adapter prepares: [(status, kind)]
+        self.last_stamp_index = 0
+        self.current_token = None   # the continuation token the adapter has to use in its next listing request
 
     async def handler(self, request):
+        """EVERY request that reaches the wire, for whatever host, is recorded here (and verified afterwards)"""
         body = await request.aread()
         rec = {'method': request.method.encode(), 'target': bytes(request.url.raw_path),
-               'headers': [(bytes(k), bytes(v)) for k, v in request.headers.raw], 'body': bytes(body)}
+               'headers': [(bytes(k), bytes(v)) for k, v in request.headers.raw], 'body': bytes(body),
+               'netloc': bytes(request.url.netloc).decode('latin-1'), 'scheme': request.url.scheme}
+        info = self.prepared.get(id(request))
+        if info is not None and info['request'] is request:
+            rec['canon'] = info['canon']
+            rec['stamp_index'] = self.last_stamp_index = info['stamp_index']
+        else:
+            # not built by the adapter's _prepare_request: the HTTP client produced it by itself (e.g. followed a redirect)
+            rec['canon'] = None
+            rec['stamp_index'] = self.last_stamp_index
+            rec['unprepared'] = True
         self.captured.append(rec)
         path = rec['target'].partition(b'?')[0]
         m = request.method
+        if b'list-type=2' in rec['target']:
+            rec['token'] = self.current_token
+        plan = self.redirects.pop(0) if (self.redirects and info is not None) else None
+        if plan is not None and plan[0]:
+            status, kind = plan
+            rec['answered'] = status
+            if kind == 'host':       # the bucket lives in another region / behind another endpoint
+                loc = f'{request.url.scheme}://bucket-region.redirect.example' + rec['target'].decode('latin-1')
+            elif kind == 'path':     # a gateway moves the object to another path on the same host
+                loc = '/moved' + rec['target'].decode('latin-1')
+            else:                    # absolute URL on the same host, other path
+                loc = f'{request.url.scheme}://{rec["netloc"]}/elsewhere' + rec['target'].decode('latin-1')
+            return httpx.Response(status, headers={'location': loc})
         if m == 'PUT':
             if self.put_faults > 0:
                 self.put_faults -= 1
@@ -90,6 +118,7 @@ class FakeS3:
             return httpx.Response(204)
         if b'list-type=2' in rec['target']:
             tok = self.pages.pop(0) if self.pages else None
+            self.current_token = tok
             xml = '<ListBucketResult xmlns="http://s3.amazonaws.com/doc/2006-03-01/">'
             xml += '<Contents><Key>k%d</Key></Contents>' % len(self.captured)
             if tok is None:
@@ -127,8 +156,10 @@ def instrumented(fake, clock):
 
     def prepare_spy(self, *a, **kw):
         last.clear()
+        n_before = clock.n
         req = orig_prepare(self, *a, **kw)
         fake.canon.append((last.get('creq'), last.get('sts')))
+        fake.prepared[id(req)] = {'canon': fake.canon[-1], 'stamp_index': n_before, 'request': req}
         return req
 
     s3c.httpx = HttpxProxy(httpx.MockTransport(fake.handler))
@@ -171,6 +202,7 @@ def wrap_stream(data, kind):
 async def run_ops(sc, fake, clock):
     cfg = sc['cfg']
     fake.put_faults = sc.get('put_faults', 0)
+    fake.redirects = [tuple(r) for r in sc.get('redirects', [])]
     with instrumented(fake, clock) as s3c:
         if cfg.get('aws'):
             from replicat.backends import s3 as s3mod
@@ -182,31 +214,31 @@ async def run_ops(sc, fake, clock):
             for op in sc['ops']:
                 start = len(fake.captured)
                 kind = op[0]
-                if kind == 'exists':
-                    await be.exists(op[1])
-                elif kind == 'upload':
-                    await be.upload(op[1], bytes.fromhex(op[2]))
-                elif kind == 'upload_stream':
-                    data = bytes.fromhex(op[2])
-                    stream = wrap_stream(data, op[4])
-                    if op[3] is None:
-                        await be.upload_stream(op[1], stream, len(data))
-                    else:
-                        await be.upload_stream(op[1], stream, len(data), op[3])
-                elif kind == 'download':
-                    with contextlib.suppress(httpx.HTTPStatusError):
+                with contextlib.suppress(httpx.HTTPError):      # the outcome of the call is not this property's business
+                    if kind == 'exists':
+                        await be.exists(op[1])
+                    elif kind == 'upload':
+                        await be.upload(op[1], bytes.fromhex(op[2]))
+                    elif kind == 'upload_stream':
+                        data = bytes.fromhex(op[2])
+                        stream = wrap_stream(data, op[4])
+                        if op[3] is None:
+                            await be.upload_stream(op[1], stream, len(data))
+                        else:
+                            await be.upload_stream(op[1], stream, len(data), op[3])
+                    elif kind == 'download':
                         await be.download(op[1])
-                elif kind == 'download_stream':
-                    with contextlib.suppress(httpx.HTTPStatusError):
+                    elif kind == 'download_stream':
                         await be.download_stream(op[1], io.BytesIO())
-                elif kind == 'delete':
-                    await be.delete(op[1])
-                elif kind == 'list_files':
-                    fake.pages = list(op[2])
-                    async for _ in be.list_files(op[1]):
-                        pass
-                else:
-                    raise ValueError(kind)
+                    elif kind == 'delete':
+                        await be.delete(op[1])
+                    elif kind == 'list_files':
+                        fake.pages = list(op[2])
+                        fake.current_token = None
+                        async for _ in be.list_files(op[1]):
+                            pass
+                    else:
+                        raise ValueError(kind)
                 for i in range(start, len(fake.captured)):
                     fake.captured[i]['op'] = op
                     fake.captured[i]['nth'] = i - start
@@ -237,8 +269,12 @@ def check_scenario(sc, rep, model_queue=None):
     host = host_of(cfg)
     for i, rec in enumerate(fake.captured):
         op = rec.get('op', ['?'])
-        stamp = stamp_text(tuple(sc['stamps'][min(i, len(sc['stamps']) - 1)]))
+        stamp = stamp_text(tuple(sc['stamps'][min(rec['stamp_index'], len(sc['stamps']) - 1)]))
         rep.count('op:' + op[0])
+        if rec.get('unprepared'):
+            rep.count('requests the HTTP client produced by itself')
+        if rec.get('answered') in (301, 302, 307, 308):
+            rep.count('answered with a redirect')
         try:
             got = verify(rec['method'], rec['target'], rec['headers'], rec['body'], secret=cfg['access_key'].encode(),
                          key_id=cfg['key_id'].encode(), region=cfg['region'].encode(), now=stamp.encode())
@@ -246,7 +282,7 @@ def check_scenario(sc, rep, model_queue=None):
         except Reject as e:
             reason, got = e.args[0], None
         # the body and the length announced for it
-        if reason is None and op[0] in ('upload', 'upload_stream'):
+        if reason is None and op[0] in ('upload', 'upload_stream') and rec['method'] == b'PUT':
             data = bytes.fromhex(op[2])
             cl = [v for k, v in rec['headers'] if k.lower() == b'content-length']
             if rec['body'] != data:
@@ -261,18 +297,19 @@ def check_scenario(sc, rep, model_queue=None):
             if kind == 'signature-mismatch' and op[0] != 'list_files' and has_dot_segment(name):
                 kind = 'dot_segment'
             rep.violations.append({
-                'what': (f'{op[0]}({name!r}) sent {rec["method"].decode()} {rec["target"].decode("latin-1")} (host {host}, time {stamp}): an '
-                         f'independent SigV4 verifier working from the wire bytes rejects it: {reason}'),
+                'what': (f'{op[0]}({name!r}) sent {rec["method"].decode()} {rec["target"].decode("latin-1")} to {rec["netloc"]} (endpoint {host}, time {stamp}'
+                         + (', request produced by the HTTP client itself after the service answered with a redirect' if rec.get('unprepared') else '')
+                         + f'): an independent SigV4 verifier working from the wire bytes rejects it: {reason}'),
                 'signature': {'kind': kind, 'op': op[0]},
                 'replay': sc})
-        elif i < len(fake.canon):
+        elif rec['canon'] is not None:
             # what the module hashed and signed is what the verifier derived from the wire
-            creq, sts = fake.canon[i]
+            creq, sts = rec['canon']
             if creq != got['canonical_request'] or sts != got['string_to_sign']:
                 rep.disagreements.append({'what': 'the signature verifies but the canonical request / string to sign the module built '
                                           'differs from the one derived from the wire', 'replay': sc})
-        if model_queue is not None and i < len(fake.canon) and reason is None:
-            model_queue.append({'sc': sc, 'rec': rec, 'canon': fake.canon[i], 'host': host, 'stamp': stamp})
+        if model_queue is not None and rec['canon'] is not None and reason is None:
+            model_queue.append({'sc': sc, 'rec': rec, 'canon': rec['canon'], 'host': host, 'stamp': stamp})
     if not fake.captured:
         rep.disagreements.append({'what': 'scenario produced no request', 'replay': sc})
     return fake
@@ -398,6 +435,12 @@ def gen_scenario(rng, nops=6):
     sc = {'cfg': gen_cfg(rng), 'ops': ops, 'stamps': gen_stamps(rng, 8 * len(ops) + 16)}
     if rng.random() < 0.3:
         sc['put_faults'] = rng.choice([1, 2, 3])      # transient 503s on PUT: every retry must again declare what it sends
+    if rng.random() < 0.3:
+        # the service answers some requests with a redirect (bucket in another region, gateway moving a path): whatever reaches
+        # the wire afterwards - for any host - must again be a correctly signed request
+        sc['redirects'] = [[rng.choice([301, 302, 307, 308]), rng.choice(['host', 'path', 'abs'])] for _ in range(rng.choice([1, 2, 3]))]
+        if rng.random() < 0.5:
+            sc['redirects'] = [[0, 'none']] * rng.randint(0, 2 * len(ops)) + sc['redirects']     # not only the first requests
     return sc
 
 
